@@ -219,6 +219,8 @@ func children(t *Term) []*Term {
 
 // Check decides satisfiability of the conjunction of conds. When wantModel is set and the answer
 // is sat, the values of vars (and of the UF applications in ufApps) are returned.
+var tacticMode = os.Getenv("GOSMT_TACTIC")
+
 func (s *Solver) Check(conds []*Term, wantModel bool, vars []*Term, ufApps []*Term) (res SatResult, model *Model) {
 	start := time.Now()
 	defer func() {
@@ -263,9 +265,25 @@ func (s *Solver) Check(conds []*Term, wantModel bool, vars []*Term, ufApps []*Te
 		sb.WriteString(n)
 		sb.WriteString(")\n")
 	}
-	sb.WriteString("(check-sat)\n")
-	s.send(sb.String())
+	// Pure bit-vector queries go through z3's qfbv tactic (simplify, bit-blast, SAT): inside a
+	// long-lived incremental context the default solver is several times slower on the ordering
+	// problems of the race encoding. Anything but sat/unsat from the tactic falls back to check-sat.
+	pure := tacticMode != "off"
+	for _, c := range conds {
+		if c.hasUF {
+			pure = false
+		}
+	}
+	if pure {
+		s.send(sb.String() + "(check-sat-using qfbv)\n")
+	} else {
+		s.send(sb.String() + "(check-sat)\n")
+	}
 	ans := s.readAnswer()
+	if pure && ans != "sat" && ans != "unsat" {
+		s.send("(check-sat)\n")
+		ans = s.readAnswer()
+	}
 	switch ans {
 	case "sat":
 		res = Sat
